@@ -15,6 +15,7 @@ import (
 	"os"
 	"path/filepath"
 	"runtime"
+	"runtime/pprof"
 	"sort"
 	"strconv"
 	"strings"
@@ -70,6 +71,11 @@ func worker() {
 	out := os.Args[5]
 	c := core.New("C18", "exploration")
 	installLogCapture()
+	if pf := os.Getenv("VERIF_C18_PROFILE"); pf != "" {
+		f, _ := os.Create(pf)
+		_ = pprof.StartCPUProfile(f)
+		defer pprof.StopCPUProfile()
+	}
 	res := newChildResult()
 	for i := widx; i < total; i += workers {
 		if i%(workers*512) == widx {
